@@ -194,6 +194,9 @@ func dateSpecs(thorough bool) []spec {
 	for _, d := range seps {
 		dOnly = append(dOnly, tr{d, "", ""})
 	}
+	// separators that hold a comma (quoted, so that the rule list is not split there): for year2month / date the whole
+	// quoted text is the one separator
+	dOnly = append(dOnly, tr{",", "", ""}, tr{", ", "", ""}, tr{"/,", "", ""}, tr{",/", "", ""}, tr{"-,-", "", ""})
 	mk("year2month", 2, func(x tr) string { return "year2month=" + q(x.d) }, dOnly)
 	mk("date", 3, func(x tr) string { return "date=" + q(x.d) }, dOnly)
 	// defaults (no argument)
